@@ -39,7 +39,6 @@ def main():
         m = re.search(r"^// run: *(.+)$", demo, re.M)
         runcmd = m.group(1).strip() if m else "go test -vet=off -count=1 -run Seed ."
         runcmd = re.sub(r"/tmp/seed/C\d+", wt, runcmd)
-        runcmd = re.sub(r"^\s*cd \S+ *&& *", "", runcmd)
         runcmd = re.sub(r"GOFLAGS=\S+ |GOPROXY=\S+ ", "", runcmd)
         demo_path = os.path.join(wt, ddir, "zz_seed_demo_test.go")
         rc, out = sh("git apply " + patch, wt)
@@ -55,10 +54,10 @@ def main():
         if not res["suite_passes_with_patch"]:
             res["suite_output"] = (out1[-1500:] if rc1 else "") + (out2[-1500:] if rc2 else "")
         shutil.copy(os.path.join(src, "demo_test.go"), demo_path)
-        dcwd = os.path.join(wt, ddir)
+        dcwd = wt
         rc, out = sh(runcmd, dcwd, 1200)
-        res["demo_cmd"] = "cd <repo>/%s && %s" % (ddir, runcmd)
-        res["demo_fails_with_patch"] = rc != 0 and "[build failed]" not in out and "cannot find" not in out
+        res["demo_cmd"] = "(demo copied to <repo>/%s/zz_seed_demo_test.go) cd <repo> && %s" % (ddir, runcmd.replace(wt, "<repo>"))
+        res["demo_fails_with_patch"] = rc != 0 and ("--- FAIL" in out or "panic:" in out) and "[build failed]" not in out and "[setup failed]" not in out
         res["demo_with_patch_tail"] = out[-600:]
         sh("git apply -R " + patch, wt)
         rc, out = sh(runcmd, dcwd, 1200)
